@@ -191,6 +191,15 @@ func (g *Grammar) WellFormed() bool {
 		if e.K == KClass && len(e.Items) == 0 {
 			ok = false
 		}
+		// every rune must be a code point the .peg text can carry (a generator slip here would make the printed
+		// text and the AST disagree and raise a false alarm)
+		valid := func(c rune) bool { return c >= 0 && c <= 0x10FFFF && !(c >= 0xD800 && c <= 0xDFFF) }
+		for _, c := range e.Text {
+			ok = ok && valid(c)
+		}
+		for _, it := range e.Items {
+			ok = ok && valid(it.Lo) && valid(it.Hi) && it.Lo <= it.Hi
+		}
 	})
 	return ok
 }
